@@ -3,8 +3,8 @@ from vlib import core, enumgen
 from vlib.sexp import Q
 
 PROP = "C12"
-LEAN_MODULES = ["ShootVerif.Props.C12"]
-USES_FACTS = False
+LEAN_MODULES = ["ShootVerif.Props.C12", "ShootVerif.Props.C12Facts"]
+USES_FACTS = True
 DRIVER = "shootmodel_enum"
 enumgen.regen_enum_facts()          # lean/ShootVerif/Gen/EnumFacts.lean follows the current source (Props/C04Facts.lean)
 
